@@ -69,6 +69,28 @@ def all_exited(processes):
     return True
 
 
+def any_failed(processes):
+    """
+    Check if at least one process has already exited with a non-zero exit code
+    """
+    for p in processes:
+        if p.exitcode is not None and p.exitcode != 0:
+            return True
+    return False
+
+
+def abort_run(processes, message):
+    """
+    A worker died: stop the remaining workers and abort. A worker that was killed while writing to
+    the shared queue leaves the queue's lock held, the other workers would then block for ever
+    """
+    logger.error(message)
+    for p in processes:
+        if p.is_alive():
+            p.terminate()
+    sys.exit(1)
+
+
 def run_realign(gaf, graph, fasta, output=None, cores=1):
     timers = StageTimer()
 
@@ -207,6 +229,9 @@ def realign_gaf(gaf, graph, fasta, output, cores=1):
                 try:
                     out_string_obj = align_queue.get(timeout=0.5)
                 except queue.Empty:  # queue throws Empty exception after timeout
+                    # abort as soon as one process died, do not wait for the others
+                    if any_failed(processes):
+                        abort_run(processes, "One of the processes had a none-zero exit code")
                     # check if all threads are still alive
                     if one_is_alive(processes):
                         continue
@@ -255,6 +280,9 @@ def realign_gaf(gaf, graph, fasta, output, cores=1):
             try:
                 out_string_obj = align_queue.get(timeout=0.1)
             except queue.Empty:
+                # abort as soon as one process died, do not wait for the others
+                if any_failed(processes):
+                    abort_run(processes, "One of the processes had a none-zero exit code")
                 # check if all threads are still alive
                 if one_is_alive(processes):
                     continue
